@@ -19,6 +19,10 @@ CHECKS = {
             "Lean 4 theorems stating the decision logic of the four controllers outright (threshold selection proved for any declaration order via a verified insertion sort) + differential correspondence (Stepwise through run() under trio MockClock) + independent oracle",
             "Bound, direction, exactness and no-change clauses of LinearController, the three cases of RelativeSupplyController, greatest-threshold selection of Stepwise and DemandSwitch (any table size, any order) and the exactly-one-delegate clause are Lean theorems; the models are tied to linear.py, relative_supply.py, stepwise.py, switch.py by running generated step sequences on both.",
             "Trusted: Lean kernel + standard axioms; the models (sampling correspondence); CPython sorted(); trio MockClock to drive Stepwise.run; exact arithmetic only."),
+    "C17": ("§6 C17",
+            "Lean 4 round-trip theorem decodeLine (encodeLine r) = some r against an independent reference decoder, for all strings; differential correspondence (exact output string + two decoders) + independent oracle",
+            "The whole-line round trip (name, tags, fields with string/non-string class, timestamp), the single-line clause, the tags/fields split, the timestamp floor and the JSON merge order are Lean theorems over all strings (every special character) and all record shapes; the encoder model is tied to format_line.py / format_json.py by exact comparison of the produced text on generated records and by decoding it with two independent decoders.",
+            "Trusted: Lean kernel + standard axioms; model (sampling correspondence); CPython %s/%d rendering of numbers and booleans (assumed separator-free, checked on generated values); json module; integer record times."),
 }
 
 PENDING_REASON = "check not built yet in this session (planned: Lean model + proof + correspondence, see DESIGN.md work order); not claimed until its check exists"
